@@ -7,7 +7,7 @@
     the leaf's OWN chain only, so the model and the spec state that nothing of a sibling statement
     (same text or not) takes part in the decision. *)
 From Coq Require Import ZArith List Bool Lia Strings.Byte.
-From YV Require Import Base.Verdict Restrict.RangeParse Restrict.Model Restrict.Spec Restrict.Proofs.
+From YV Require Import Base.Verdict Restrict.RangeParse Restrict.Model Restrict.Spec Restrict.Proofs Restrict.Member Restrict.MemberProofs.
 Import ListNotations.
 Open Scope Z_scope.
 
@@ -15,9 +15,18 @@ Open Scope Z_scope.
     written, and per write path (fixed order, see the harness) what was observed:
       outcome  0 accepted (nil error), 1 rejected (error), 2 panic
       store    0 the leaf holds what it held before, 1 it holds the written value, 2 anything else *)
-Inductive row := Row (pre : option value) (v : value) (obs : list (Z * Z)) (tobs : list (Z * Z)).
+Inductive row := Row (pre : option value) (v : value) (obs : list (Z * Z)) (tobs : list (Z * Z))
+                     (sobs : list (Z * Z)).
 (** [obs]: the converting write paths (UpsertFrom JSON / XML / reflect node, UpdateFrom, InsertFrom,
-    SetValue); [tobs]: Selection.Set with a typed val.Value built by the harness *)
+    SetValue with Go data); [tobs]: Selection.Set with a typed val.Value built by the harness;
+    [sobs]: Selection.SetValue handed that same typed val.Value (NewValue converts it again; where
+    it has no case for the library's own value type the write is rejected, which the property
+    permits: [sobs] is held to "accepted only if a member", not to the converse) *)
+
+(** a write to a leaf / leaf-list of enumeration, bits or identityref (Restrict/Member.v) *)
+Inductive mrow := MRow (pre : option mvalue) (v : mvalue) (obs tobs sobs oobs : list (Z * Z)).
+(** [oobs]: a leaf-list written with a SINGLE Go value / JSON scalar standing for the list of one [v]
+    (SetValue, UpsertFrom JSON); like [sobs] held to "accepted only if a member" *)
 
 (** [chain]: the restriction text of every level, leaf first, as written into the module;
     [ast]: the abstract syntax the generator printed that text from ([None]: the text was made
@@ -32,7 +41,10 @@ Inductive case :=
     (text, and the syntax it was printed from); rows: number written (onto an absent leaf) and
     per write path (outcome, store) *)
 | CUnion (ms : list (ikind * option text * option (list alt))) (loaded : bool)
-         (rows : list (Z * list (Z * Z))).
+         (rows : list (Z * list (Z * Z)))
+(** a leaf or leaf-list whose type is an enumeration / bits (possibly restricted by the typedef
+    levels between it and the leaf) or an identityref over the module's identities *)
+| CMember (t : mtype) (is_list : bool) (loaded : bool) (rows : list mrow).
 
 Definition rx_lookup (tbl : list (text * text * bool)) (p s : text) : option bool :=
   match find (fun e => text_eqb (fst (fst e)) p && text_eqb (snd (fst e)) s) tbl with
@@ -55,7 +67,7 @@ Definition strings_of (v : value) : list text :=
 (** every (pattern, string) the model or the spec will ask for is in the oracle table *)
 Definition rx_complete (tbl : list (text * text * bool)) (chain : list tlevel) (rows : list row) : bool :=
   forallb (fun l => forallb (fun p =>
-    forallb (fun r => match r with Row _ v _ _ =>
+    forallb (fun r => match r with Row _ v _ _ _ =>
       forallb (fun t => match rx_lookup tbl (fst p) t with Some _ => true | None => false end) (strings_of v) end)
       rows) (tl_pats l)) chain.
 
@@ -100,6 +112,44 @@ Definition value_eqb (a b : value) : bool :=
 Definition store_code (pre st' : option value) (v : value) : Z :=
   if opt_eqv value_eqb st' (Some v) then 1 else if opt_eqv value_eqb st' pre then 0 else 2.
 
+Definition msval_eqb (a b : msval) : bool :=
+  match a, b with
+  | MName x, MName y => text_eqb x y
+  | MNum x, MNum y => x =? y
+  | MBitNames x, MBitNames y => list_eqv text_eqb x y
+  | _, _ => false
+  end.
+Definition mvalue_eqb (a b : mvalue) : bool :=
+  match a, b with
+  | MOne x, MOne y => msval_eqb x y
+  | MMany x, MMany y => list_eqv msval_eqb x y
+  | _, _ => false
+  end.
+Definition mstore_code (pre st' : option mvalue) (v : mvalue) : Z :=
+  if opt_eqv mvalue_eqb st' (Some v) then 1 else if opt_eqv mvalue_eqb st' pre then 0 else 2.
+
+(** "accepted only if a member": accepted and stored, or rejected and untouched, when a member;
+    rejected and untouched otherwise *)
+Definition sound_only (member : bool) (obs : list (Z * Z)) : bool :=
+  if member then forallb (fun p => obs_is 0 1 p || obs_is 1 0 p) obs else forallb (obs_is 1 0) obs.
+
+(** the hypotheses of the theorems of Restrict/MemberProofs.v, decided *)
+Fixpoint nodupb (l : list text) : bool :=
+  match l with [] => true | x :: tl => negb (mem_text x tl) && nodupb tl end.
+Fixpoint subset_chainb (restr : list (list text)) (inner : list text) : bool :=
+  match restr with
+  | [] => true
+  | names :: tl =>
+      forallb (fun n => mem_text n (match tl with [] => inner | below :: _ => below end)) names &&
+      subset_chainb tl inner
+  end.
+Definition wf_mtypeb (t : mtype) : bool :=
+  match t with
+  | MEnum es restr => subset_chainb restr (map fst es) && nodupb (map fst es)
+  | MBits ds restr => subset_chainb restr ds
+  | MIdent ids _ => ordered_idsb [] ids
+  end.
+
 Definition classify (c : case) : verdict :=
   match c with
   | CType b il chain ast rxt loaded rows =>
@@ -114,17 +164,20 @@ Definition classify (c : case) : verdict :=
         end in
       let levels := match ast with Some a => a | None => [] end in
       let corr_row (r : row) :=
-        match r with Row pre v obs tobs =>
+        match r with Row pre v obs tobs sobs =>
           let '(o, st') := set_model rx b il chain pre v in
           let '(ot, stt) := set_typed_model rx b il chain pre v in
+          let '(os, sts) := set_sv_typed_model rx b il chain pre v in
           (* the harness never writes the value the leaf already holds *)
           negb (opt_eqv value_eqb pre (Some v)) && forallb (obs_is (code_of o) (store_code pre st' v)) obs
           && forallb (obs_is (code_of ot) (store_code pre stt v)) tobs
+          && forallb (obs_is (code_of os) (store_code pre sts v)) sobs
         end in
       let spec_row (r : row) :=
-        match r with Row pre v obs tobs =>
-          if in_effective_typeb rx b il levels v then forallb (obs_is 0 1) (obs ++ tobs)
-          else forallb (obs_is 1 0) (obs ++ tobs)
+        match r with Row pre v obs tobs sobs =>
+          let member := in_effective_typeb rx b il levels v in
+          (if member then forallb (obs_is 0 1) (obs ++ tobs) else forallb (obs_is 1 0) (obs ++ tobs))
+          && sound_only member sobs
         end in
       let corr :=
         Bool.eqb loaded (match parsed with Some _ => true | None => false end) && ast_agrees &&
@@ -158,6 +211,37 @@ Definition classify (c : case) : verdict :=
       classify_gen corr spec
         (if existsb (fun m => match snd (fst m) with Some _ => true | None => false end) ms
          then Some 3%nat else None)
+  | CMember t il loaded rows =>
+      let corr_row (r : mrow) :=
+        match r with MRow pre v obs tobs sobs oobs =>
+          let '(o, st') := set_m accept_m t il pre v in
+          let '(ot, stt) := set_m accept_m_set t il pre v in
+          let '(os, sts) := set_m accept_m_sv_typed t il pre v in
+          let '(oo, sto) := set_m accept_m_single t il pre v in
+          negb (opt_eqv mvalue_eqb pre (Some v))
+          && forallb (obs_is (code_of o) (mstore_code pre st' v)) obs
+          && forallb (obs_is (code_of ot) (mstore_code pre stt v)) tobs
+          && forallb (obs_is (code_of os) (mstore_code pre sts v)) sobs
+          && forallb (obs_is (code_of oo) (mstore_code pre sto v)) oobs
+        end in
+      (* the converting paths and SetValue(val.Value) *)
+      let spec_conv (r : mrow) :=
+        match r with MRow pre v obs tobs sobs oobs =>
+          let member := in_memberb t il v in
+          (if member then forallb (obs_is 0 1) obs else forallb (obs_is 1 0) obs)
+          && sound_only member sobs && sound_only member oobs
+        end in
+      (* Selection.Set(val.Value) *)
+      let spec_set (r : mrow) :=
+        match r with MRow pre v obs tobs sobs oobs =>
+          if in_memberb t il v then forallb (obs_is 0 1) tobs else forallb (obs_is 1 0) tobs
+        end in
+      let corr :=
+        wf_mtypeb t && loaded && (match compile_m t with Some _ => true | None => false end) &&
+        forallb corr_row rows in
+      (* finding 6 explains a failure of the Set path only *)
+      classify_gen corr (forallb spec_conv rows && forallb spec_set rows)
+        (if forallb spec_conv rows then Some 6%nat else None)
   end.
 
 (** outside the listed regions the chain has at most one pattern and no misplaced keyword: these
@@ -319,4 +403,39 @@ Lemma kf3_refuted :
   ~ in_union [(I8, Some [mkAlt (BdNum 1 0) (BdNum 10 0)]); (I16, Some [mkAlt (BdNum 100 0) (BdNum 200 0)])] 50.
 Proof.
   split; [vm_compute; reflexivity|]. intros H. apply in_unionb_iff in H. vm_compute in H. discriminate.
+Qed.
+
+(** ** Enumeration / bits / identityref cases: the decided well-formedness is the hypothesis of the
+    theorems of Restrict/MemberProofs.v, so on every generated case the converting paths of the
+    model decide exactly membership and a [ModelViolatesSpec] verdict cannot come from them *)
+Lemma nodupb_ok l : nodupb l = true -> NoDup l.
+Proof.
+  induction l as [|x tl IH]; cbn; intros H; [constructor|].
+  apply andb_true_iff in H. destruct H as [H1 H2]. constructor; [|apply IH; exact H2].
+  intros Hin. apply mem_text_in in Hin. rewrite Hin in H1. discriminate.
+Qed.
+
+Lemma subset_chainb_ok restr inner : subset_chainb restr inner = true -> subset_chain restr inner.
+Proof.
+  induction restr as [|names tl IH]; cbn; intros H; [exact I|].
+  apply andb_true_iff in H. destruct H as [H1 H2]. split; [|apply IH; exact H2].
+  intros n Hn. rewrite forallb_forall in H1. apply mem_text_in. apply H1. exact Hn.
+Qed.
+
+Lemma wf_mtypeb_ok t : wf_mtypeb t = true -> wf_mtype t.
+Proof.
+  destruct t as [es restr|ds restr|ids bases]; cbn; intros H.
+  - apply andb_true_iff in H. destruct H as [H1 H2]. split; [apply subset_chainb_ok; exact H1|apply nodupb_ok; exact H2].
+  - apply subset_chainb_ok. exact H.
+  - apply ordered_idsb_ok. exact H.
+Qed.
+
+Lemma member_model_is_spec t il v :
+  wf_mtypeb t = true -> (accept_m t il v = Accepted <-> in_member t il v).
+Proof. intros H. apply accept_m_iff. apply wf_mtypeb_ok. exact H. Qed.
+
+Lemma member_oracle_decides t il v :
+  wf_mtypeb t = true -> (in_memberb t il v = true <-> in_member t il v).
+Proof.
+  intros H. apply in_memberb_iff. apply wf_mtypeb_ok in H. destruct t; cbn in *; auto.
 Qed.
